@@ -4,7 +4,7 @@ PROPS["C10"] = dict(
          "ArRn/ArStep, ArpRn/ArpStep operands, modr*, implicit-r0 min/max) executed on the bare interpreter from a random "
          "well-formed state with chosen m/br/cmd/stp16/epi/epj, mod cycling through all 512 values, starts biased to block "
          "edges (in-buffer for the modulo clause, 1/4 out-of-buffer); register post-value compared with the statement model, "
-         "accessed cell taken from the access log and from the value moved. distinct_nontrivial = distinct (form, selection "
+         "accessed cell taken from the access log and from the value moved. Cases come in groups of 8 sharing each configuration field with probability 3/4 (history on the long-lived interpreter). distinct_nontrivial = distinct (form, selection "
          "path, register, deciding clause, edge class {up,down,wrap-up,wrap-down,+1,-1,+-2,+s7,+s16,ep}, cmd, dmod) and "
          "(form, register, address class {plain,bitrev,m+br}) keys that were executed and compared",
     floors={Q: {"checked_registers": 1500000, "checked_mod-in": 300000, "checked_mod-out": 50000, "checked_lin": 400000,
